@@ -723,6 +723,10 @@ x
         neighb: array of shape(self.E), concatenated list of neighbors
         weights: array of shape(self.E), concatenated list of weights
         """
+        if self.E == 0:
+            # no edges: self.edges is an empty list, nothing to sort
+            return (np.zeros(self.V + 1, np.intp), np.zeros(0, np.intp),
+                    np.zeros(0))
         order = np.argsort(self.edges[:, 0] * float(self.V) + self.edges[:, 1])
         neighb = self.edges[order, 1].astype(np.intp)
         weights = self.weights[order]
